@@ -30,14 +30,26 @@ CHECKS = {
         text='Lean 4 theorems over the model of the repaired helpers (print the double with 15 significant digits, round the decimal with '
              'quantize, convert back): the three integer rounding modes are floor / ceiling / nearest-ties-away (bracketing inequalities), '
              'exact values are fixed points in every mode, rounding is sign-symmetric, and for every decimal x whose 15-digit print recovers it '
-             '(Recovers x: proved as E2P.dec15_recover when that lemma file is present, otherwise checked by the driver on every generated case) '
-             'the helper returns rn(quantize x n) - the double nearest to the exact decimal result. Percent = rn(round15(rn(x/100))). '
+             '(E2P.dec15_recover: the 15-significant-digit print of the double nearest to a <=15-digit decimal is that decimal, proved for every '
+             'such decimal and exponent; also re-checked by the driver on every generated case) the helper returns rn(quantize x n) - the double '
+             'nearest to the exact decimal result (round_spec, full strength). percent_spec: x% = rn(x/100) for every decimal of <= 13 digits. '
              'Tie B: decimal grid incl. every tie x digit counts -3..6 x 3 modes, integers, percent via real formulas, literals/cells/overrides.',
         note="Trusted: Lean kernel; standard axioms; float(str), '{:.15g}' and decimal.quantize are externals modelled as rn / round15 / integer rounding "
-             "(cross-checked per case, flags rn-bad / recover-bad); exponent range, NaN, inf, -0.0 not modelled. Partial: round_spec carries the hypothesis Recovers x.",
+             "(cross-checked per case, flags rn-bad / recover-bad); exponent range (overflow, subnormals), NaN, inf, -0.0 not modelled.",
         technique='Lean 4 proof over hand model (exact rationals for doubles) + differential correspondence', design='5/C16'),
+    'C14': dict(
+        text='Lean 4 theorems over the model of _match/_xmatch/_vlookup/_index/_address: exact scans return the first (XMATCH from the end: last) '
+             'row whose key equals the lookup value else #N/A; the approximate scan keeps the longest acceptable prefix, which on ascending keys is the '
+             'last row whose key is not greater than the lookup value (the last row when the value exceeds every key); INDEX returns the addressed '
+             'element and #REF! outside the area; INDEX(MATCH) retrieves the partner; ADDRESS letters invert the base-26 column index for every '
+             'column 1..16384 (kernel-evaluated table) and unboundedly. Tie B: helper sweeps over key columns x lookups x modes, INDEX boxes, '
+             'ADDRESS for all 16384 columns, openpyxl column-letter externals for 1..18278, end-to-end formulas incl. two-argument forms and COLUMN.',
+        note='Trusted: Lean kernel; standard axioms; hand model tied by correspondence; texts ASCII only (str.lower); keys of the lookup value kind '
+             '(numbers or texts, no blanks) is the domain of the spec; COLUMN is checked end-to-end only (translation-time constant).',
+        technique='Lean 4 proof over hand model + differential correspondence', design='5/C14'),
 }
 
+WIP = {'C14'}   # built, proofs in progress: not claimed until green
 NOT_YET = 'check not built yet (work in progress; will be claimed when its Lean model, theorems and correspondence are green)'
 
 
@@ -45,7 +57,7 @@ def main():
     props = [json.loads(l)['id'] for l in open(os.path.join(VERIF, 'properties.jsonl'))]
     checks = []
     for pid in props:
-        if pid not in CHECKS:
+        if pid not in CHECKS or pid in WIP:
             continue
         c = CHECKS[pid]
         checks.append({
@@ -59,10 +71,10 @@ def main():
             'level_note': c['note'],
             'technique': c['technique'],
         })
-    na = [{'property_id': p, 'reason': NOT_YET} for p in props if p not in CHECKS]
+    na = [{'property_id': p, 'reason': NOT_YET} for p in props if p not in CHECKS or p in WIP]
     man = {
         'version': 1,
-        'setup_cmd': 'cd lean && lake build',
+        'setup_cmd': 'cd lean && lake build e2pdrv ' + ' '.join('E2P.Props.%s' % c['property_id'] for c in checks),
         'hooks': {
             'guard': 'E2PYCL_VERIF',
             'enable': 'no source hooks are installed; the harness observes the unmodified package in-process (E2PYCL_VERIF=1 is exported but nothing in /repo reads it)',
